@@ -235,7 +235,14 @@ class World(DuoWorld):
             self.call(lambda: self.o.session.publish(op.uri, *op.args, options=types.PublishOptions(acknowledge=False), **op.kwargs))
             op.w = None
         else:
-            f = self.call(self.o.session.call, op.uri, *op.args, **op.kwargs)
+            if not flip and ch.flag("call-with-options-object", 0.3):
+                # the options-object variant of call(): a progress handler is registered although only a final result comes
+                op.progress_seen = []
+                opts = types.CallOptions(on_progress=lambda *a, **k: op.progress_seen.append((a, k)))
+                f = self.call(lambda: self.o.session.call(op.uri, *op.args, options=opts, **op.kwargs))
+                self.run.probe("call-with-on_progress-option")
+            else:
+                f = self.call(self.o.session.call, op.uri, *op.args, **op.kwargs)
             op.w = self.fw.watch(f)
         self.settle()
 
